@@ -55,6 +55,10 @@ def run(chk):
         # generator-built operands whose points carry non-unit, different divisors
         ls = gen_poly.make_cases(chk.seed * 1000 + 800 + i, per, maxdim=maxdim, nobj=2, steps=2, ops=[op], pq=0.0, pobs=0.15, start=cid, divbias=True)
         lines += ls; cid += per
+        # receivers / arguments with PENDING rows (both descriptions minimized, then one more generator or constraint)
+        ls = gen_poly.make_cases(chk.seed * 1000 + 1100 + i, max(per // 2, 3), maxdim=maxdim, nobj=2, steps=2, ops=[op], pq=0.0, pobs=0.1, start=cid,
+                                 special=0.9, special_kinds=["pending_gens", "pending_cons", "pending_gens"])
+        lines += ls; cid += max(per // 2, 3)
     lines += gen_poly.make_cases(chk.seed * 7919 + 17, ncase - cid if ncase > cid else 50, maxdim=maxdim, nobj=3, steps=6, pq=0.1, pobs=0.2, start=cid)
     # corpus first
     cdir = os.path.join(common.VERIF, "corpus", "C02")
